@@ -41,7 +41,11 @@ const (
 	streamOverhead = MetadataLength + cipher.DefaultOverhead*2
 )
 
-var streamReplayCache = replay.NewCache(4*1024*1024, cipher.KeyRefreshInterval*3)
+// streamReplayCache is the cache of the packet underlay: a segment that
+// consists of metadata only (an open session request without payload) is
+// valid on both transports, so traffic recorded on one of them must be
+// recognised when it is presented again on the other.
+var streamReplayCache = packetReplayCache
 
 type StreamUnderlay struct {
 	baseUnderlay
